@@ -409,9 +409,15 @@ class ShardsFamily(_Base):
     obs['restarts'] = policy.restarts
     import courier
     obs['gen_calls'] = [
-        [c.idx, c.address, c.method, c.outcome, c.ran_at]
+        [c.idx, c.address, c.method, c.outcome, c.ran_at, c.reply_mark]
         for c in courier.NET.calls
         if c.method in ('init_generator', 'next_batch_from_generator')]
+    ok_starts = {}
+    for c in courier.NET.calls:
+      if c.outcome == 'ok':
+        ok_starts.setdefault(c.address, []).append(round(c.start, 6))
+    obs['ok_starts'] = ok_starts
+    obs['t_end'] = round(time.monotonic(), 6)
     cl.stop_all(join=False)
     return obs
 
@@ -431,6 +437,38 @@ class ShardsFamily(_Base):
             and y[4] is not None and y[4] <= x[4]):
           return [x, y]
     return None
+
+  @staticmethod
+  def _chargeable_tasks(cfg, obs):
+    """How many submitted generator tasks can legitimately have been counted
+    as a timeout.  A task is one init_generator call plus the next_batch calls
+    to that worker up to its next init_generator.  It can time out when one of
+    its calls got no answer in time or an error status; when an answer carried a
+    TimeoutError value (the server refusing or stopping a generator); or when
+    its worker can have been judged not alive: a configured clock jump, or a
+    gap of more than half the heartbeat threshold without a successfully
+    answered call sent to that worker (covers lost heartbeats, departures and
+    the simulator's own busy-poll clock jumps)."""
+    tasks = {}
+    order = []
+    for c in obs.get('gen_calls') or ():
+      idx, addr, method, outcome = c[0], c[1], c[2], c[3]
+      mark = c[5] if len(c) > 5 else True
+      if method == 'init_generator' or addr not in tasks:
+        tasks[addr] = {'addr': addr, 'bad': False}
+        order.append(tasks[addr])
+      if outcome != 'ok' or mark:
+        tasks[addr]['bad'] = True
+    gap = 0.5 * cfg['hb_threshold']
+    stale = set()
+    for addr in {t['addr'] for t in order}:
+      ts = sorted((obs.get('ok_starts') or {}).get(addr, ()))
+      ts = ts + [obs.get('t_end', float('inf'))]
+      if not ts[:-1] or any(b - a > gap for a, b in zip(ts, ts[1:])):
+        stale.add(addr)
+    if obs.get('jumped'):
+      return len(order)
+    return sum(1 for t in order if t['bad'] or t['addr'] in stale)
 
   def check(self, cfg, out):
     dl = common.deadlock_violation(out)
@@ -497,17 +535,14 @@ class ShardsFamily(_Base):
       import re
       m = re.search(r'Too many Timeouts: (\d+) > (\d+)', end[2]) if end[1] == 'TimeoutError' else None
       if m:
-        # The retry budget is charged per timed-out task: the count the pool
-        # reports cannot exceed the generator calls that did not get an answer
-        # in time (deadline exceeded, or never answered because the worker was
-        # gone) - whatever else happened in the run.
-        unanswered = sum(1 for c in obs.get('gen_calls') or ()
-                         if c[3] in ('deadline', None) or str(c[3]).startswith(
-                             ('dropped', 'reply-dropped')))
+        # The retry budget is charged once per timed-out task: the count the
+        # pool reports cannot exceed the submitted tasks that can have timed
+        # out at all (see _chargeable_tasks) - whatever else happened.
+        unanswered = self._chargeable_tasks(cfg, obs)
         if int(m.group(1)) > unanswered:
           res.append(v('robustness', 'retry-budget-overcharged:shards',
                        f'{end[2][:120]}: {m.group(1)} timeouts charged, only '
-                       f'{unanswered} generator calls went unanswered; '
+                       f'{unanswered} submitted tasks can have timed out; '
                        f'fired {obs["fired"]}'))
       if app and end[1] == 'RuntimeError' and 'Failed at' in end[2]:
         pass
